@@ -33,6 +33,8 @@ func main() {
 		rtCases(os.Args[2:])
 	case "hist":
 		histCases(os.Args[2:])
+	case "execchild":
+		execChild(os.Args[2:])
 	case "rtchild":
 		rtChild(os.Args[2:])
 	case "histchild":
@@ -108,8 +110,18 @@ func execCases(args []string) {
 			panic(fmt.Sprintf("bad case line %d: %v", i+1, err))
 		}
 		var res [][]byte
+		isolate := c.Top != "" && kinds[c.Top].isolate
+		for _, f := range c.F {
+			isolate = isolate || kinds[f.K].isolate
+		}
 		for _, o := range expandOpts(&c, *masks) {
-			ev, raws := runCase(&c, o)
+			var ev event
+			var raws map[string]string
+			if isolate {
+				ev, raws = runIsolated(&c, o) // recursive types: child process, a fatal error is attributed to the case
+			} else {
+				ev, raws = runCase(&c, o)
+			}
 			res = append(res, mustJSON(ev), mustJSON(ev.Case))
 			if *valid != "" {
 				vmu.Lock()
